@@ -35,10 +35,9 @@ VGbk(ev) ==
     IF \A i \in DOMAIN ev[7] : LET st == ev[7][i][1] ps == ev[7][i][2] IN
           \A k \in 1..(Len(ps) - 1) : IF st = "-" THEN ps[k] > ps[k + 1] ELSE ps[k] < ps[k + 1]
     THEN "ok" ELSE "independent-reader:minus-strand-parts-not-in-biological-order",
-    \* translations: ev[6] = <<written, independent, strand, nParts>>...; with mis-ordered parts the independent reader
-    \* splices the exons in the wrong order, which is the finding above and not a second one
-    Ok(\A i \in DOMAIN ev[6] : ev[6][i][1] = ev[6][i][2] \/ (ev[6][i][3] = "-" /\ ev[6][i][4] > 1),
-       "translation-equals-independent-translation") >>)
+    \* translations: ev[6] = <<written, independent, strand, nParts>>...; the independent translation splices the parts in
+    \* biological order itself, so the listing-order finding above excuses nothing here
+    Ok(\A i \in DOMAIN ev[6] : ev[6][i][1] = ev[6][i][2], "translation-equals-independent-translation") >>)
 
 (* ["reparse", flavour, source projection, sorted, locusTag, hybrid]; projection = genes as
    <<structure, strand, startFrames, identifiers>>... *)
